@@ -41,7 +41,7 @@ man = {
         {"name": "qlx", "path": "/verif/qlx/qlx.cc", "serves_properties": [c["property_id"] for c in checks],
          "kind_free_text": "libTooling fact extractor: normalised AST with resolved callees/fields, clang CFG, class/global/enum facts per translation unit of the cmake compile database"},
         {"name": "rules", "path": "/verif/engine + /verif/rules", "serves_properties": [c["property_id"] for c in checks],
-         "kind_free_text": "python rule library: zone-domain abstract interpreter (engine/zone.py, dbm.py) for C14; CFG path queries with predicate projection, lockset dataflow, writer/caller enumeration, finite-table and linear-inequality extraction; three-valued outcome (exit 0 / 1 VIOLATION / 2 ANALYSIS-BROKEN)"},
+         "kind_free_text": "python rule library: CFG path queries with predicate projection, lockset dataflow, writer/caller enumeration, finite-table and linear-inequality extraction, helper splicing (engine/inline.py), abstract string evaluation (engine/strabs.py), evaluation by cases over finite domains (engine/conc.py), zone-domain abstract interpreter with character facts (engine/zone.py, dbm.py) for C14; three-valued outcome (exit 0 / 1 VIOLATION / 2 ANALYSIS-BROKEN)"},
     ],
     "checks": checks,
     "not_applicable": na,
